@@ -342,3 +342,30 @@ func phiLeaves(v ssa.Value) []ssa.Value {
 	walk(v)
 	return out
 }
+
+// strictSame: a and b denote the same run-time value: the same SSA value, or two loads of one variable with no store to
+// it executable between them (in either order).
+func strictSame(a, b ssa.Value) bool {
+	a, b = stripConv(a), stripConv(b)
+	if a == b {
+		return true
+	}
+	la, ok1 := a.(*ssa.UnOp)
+	lb, ok2 := b.(*ssa.UnOp)
+	if !ok1 || !ok2 || la.Op != token.MUL || lb.Op != token.MUL || la.Parent() != lb.Parent() {
+		return false
+	}
+	ra, rb := cellRoot(la.X), cellRoot(lb.X)
+	if ra == nil || ra != rb {
+		return false
+	}
+	for _, st := range storesToCell(enclosingRoot(la.Parent()), ra) {
+		if st.Parent() != la.Parent() {
+			continue
+		}
+		if instrBetween(la, lb, st) || instrBetween(lb, la, st) {
+			return false
+		}
+	}
+	return true
+}
